@@ -147,7 +147,7 @@ def run(ctx, chk):
                 chk.ob("C03." + r, inst, ok, w, fn=n, detail=detail)
 
     # ---- framing and order
-    cache2 = {n: P.Executor(prog, eff, loop_bound=2).run(n) for n in
+    cache2 = {n: P.Executor(prog, eff, loop_bound=2, inline=O.static_callees(prog, eff, n)).run(n) for n in
               ("cbor_serialize_bytestring", "cbor_serialize_string", "cbor_serialize_array", "cbor_serialize_map", "cbor_serialize_tag")}
     FR = {
         "cbor_serialize_bytestring": dict(defpred="cbor_bytestring_is_definite", dstart="cbor_encode_bytestring_start", dcount="cbor_bytestring_length",
